@@ -244,7 +244,18 @@ def _circuit_solution(sol, spec, times=None):
         for n in c['nodes']:
             if n not in nodes:
                 nodes.append(n)
-    f = (lambda v: cval(v(np.array(times)))) if times is not None else cval
+    repeatable = []
+
+    def f(v):
+        if times is None:
+            return cval(v)
+        # a returned time function is itself a query: evaluating the same object again (on the whole grid, then on a
+        # part of it) must give the same numbers
+        first = np.array(v(np.array(times)), dtype=float)
+        again = np.array(v(np.array(times)), dtype=float)
+        part = np.array(v(np.array(times[:1])), dtype=float)
+        repeatable.append(bool(np.array_equal(first, again) and np.array_equal(first[:1], part)))
+        return cval(first)
     for n in nodes:
         out[f'phi:{n}'] = f(sol.get_potential(n))
     for c in spec['components']:
@@ -253,6 +264,8 @@ def _circuit_solution(sol, spec, times=None):
         out[f'V:{c["id"]}'] = f(sol.get_voltage(c['id']))
         out[f'I:{c["id"]}'] = f(sol.get_current(c['id']))
         out[f'P:{c["id"]}'] = f(sol.get_power(c['id']))
+    if times is not None:
+        out['__invariants__'] = [['time-function-repeatable', all(repeatable)]]
     return out
 
 
